@@ -14,3 +14,11 @@ pub use crate::generators::{BulletproofGens, BulletproofGensShare, PedersenGens}
 
 #[cfg(feature = "yoloproofs")]
 pub mod r1cs;
+
+/// Seams for the external verification harness; compiled only with the
+/// `verif-hooks` feature, which is off by default.
+#[cfg(feature = "verif-hooks")]
+pub mod verif_hooks {
+    pub use crate::inner_product_proof::{inner_product, InnerProductProof};
+    pub use crate::util::exp_iter;
+}
